@@ -156,6 +156,10 @@ type C17RCase struct {
 	Count int  `json:"count"`
 	SP    bool `json:"sp"`
 	Buf   int  `json:"buf"`
+	// Partial: before it closes the first connection the server writes the first Partial
+	// bytes of a 100-byte PUBLISH (inbound bytes the client has not consumed when the
+	// connection is lost). On the new connection a Ping must complete.
+	Partial int `json:"partial,omitempty"`
 }
 
 func runC17Reconnect(c C17RCase) (fail string, classes []string) {
@@ -232,14 +236,33 @@ func runC17Reconnect(c C17RCase) (fail string, classes []string) {
 	if se := srv.StreamErr(); se != nil {
 		return fmt.Sprintf("the new connection's stream is malformed: %v", se), classes
 	}
+	// the new connection works in the other direction too
+	pinged := make(chan struct{}, 1)
+	if err := s.cl.Ping(func(msg, ack message.Message, err error) error { pinged <- struct{}{}; return nil }); err != nil {
+		return "", []string{"inconclusive: ping on the new connection: " + err.Error()}
+	}
+	if _, err := srv.Take(func(p *codec.Packet) bool { return p.Type == codec.PINGREQ }, 5*time.Second); err != nil {
+		return fmt.Sprintf("on the new connection the client's PINGREQ did not arrive: %v", err), classes
+	}
+	srv.SendRaw([]byte{0xD0, 0})
+	select {
+	case <-pinged:
+	case <-time.After(5 * time.Second):
+		return fmt.Sprintf("the same Client object connected again after it had lost a connection (%d bytes of an inbound packet had arrived before the loss); on the new connection the server answered the client's PINGREQ, but the Ping never completed: what the client reads is not what the new connection delivers", c.Partial), classes
+	}
 	var _ = service.Client{}
 	return "", append(classes, "reconnect-after-connection-lost-with-output-pending")
 }
 
-func TestC17ClientReconnect(t *testing.T) {
-	rec := ev.New("C17", "client-reconnect-stream")
+func TestC17ClientReconnect(t *testing.T) { testClientReconnect(t, "C17", "client-reconnect-stream") }
+
+// C14 (the rings of a Client across connections): same unit.
+func TestC14ClientReconnect(t *testing.T) { testClientReconnect(t, "C14", "client-reconnect-rings") }
+
+func testClientReconnect(t *testing.T, prop, unit string) {
+	rec := ev.New(prop, unit)
 	defer rec.Flush()
-	if rp := ev.LoadReplay(t, "client-reconnect-stream"); rp != nil {
+	if rp := ev.LoadReplay(t, unit); rp != nil {
 		var c C17RCase
 		json.Unmarshal(rp.Case, &c)
 		if f, _ := runC17Reconnect(c); f != "" {
@@ -252,7 +275,7 @@ func TestC17ClientReconnect(t *testing.T) {
 		t.Skip()
 	}
 	rapid.Check(t, func(t *rapid.T) {
-		c := C17RCase{Size: rapid.SampledFrom([]int{3000, 9000, 20000}).Draw(t, "size"), Count: rapid.IntRange(20, 60).Draw(t, "count"), SP: rapid.Bool().Draw(t, "sp"), Buf: rapid.SampledFrom([]int{32768, 65536}).Draw(t, "buf")}
+		c := C17RCase{Size: rapid.SampledFrom([]int{3000, 9000, 20000}).Draw(t, "size"), Count: rapid.IntRange(20, 60).Draw(t, "count"), SP: rapid.Bool().Draw(t, "sp"), Buf: rapid.SampledFrom([]int{32768, 65536}).Draw(t, "buf"), Partial: rapid.SampledFrom([]int{0, 1, 2, 14, 50}).Draw(t, "partial")}
 		f, cls := runC17Reconnect(c)
 		for _, x := range cls {
 			if len(x) > 12 && x[:12] == "inconclusive" {
